@@ -3,7 +3,8 @@ import ast
 
 from ..core.db import AnalysisError, norm_stmt, walk_no_nested
 from ..core.interp import Const, Tup, Unknown
-from .common import norm_interp, returns, as_rat, show, Sym, Arr, Rat
+from .common import norm_interp, returns, as_rat, show, Sym, Arr, Rat, _rat
+from .purity import input_mutations
 
 M = 'prysm.thinfilm.'
 
@@ -30,6 +31,7 @@ def check(run, db, tier):
     run.rule('C17.matrix', 'characteristic matrices have unit determinant and are the identity at zero thickness')
     run.rule('C17.rtot', 'rtot = A10/A00 and ttot = 1/A00')
     run.rule('C17.dispatch', 'polarisation p/s selects the p/s characteristic and multilayer matrices')
+    run.rule('C17.pure', 'no thin-film routine writes in place through an argument or a view of one (repeated/batched calls agree)')
     run.rule('C17.snell', 'snell_aor == arcsin(n0/n1 sin(theta)); brewster == arctan2(n1, n0); critical == arcsin(n0/n1)')
 
     coefs = {}
@@ -82,6 +84,16 @@ def check(run, db, tier):
                   'M(d=0) = %s is not the identity' % show(dom, m0), fi.loc())
         # structure: off-diagonal product == -sin^2 and diagonal equal
         run.check(a == d, 'C17.matrix', fi.qual, 'diag', 'M00 == M11', 'diagonal entries differ', fi.loc())
+        # exact reference (BYU optics book eq. 4.49/4.55): the sign of the off-diagonal terms fixes the
+        # time convention shared with the complex index n + i k (a flipped sign turns absorption into gain)
+        lam, dd, nn, th = [Rat(R.atom(x)) for x in ('lambda_', 'd', 'n', 'theta')]
+        ct = _rat(R.trig('cos', R.atom('theta')))
+        beta = 2 * Rat(R.atom('pi')) * nn * dd * ct / lam
+        sb, cb = _rat(R.trig('sin', beta)), _rat(R.trig('cos', beta))
+        mI = Rat(-R.I)
+        ref = [cb, mI * sb * ct / nn, mI * nn * sb / ct, cb] if pol == 'p' else [cb, mI * sb / (ct * nn), mI * nn * sb * ct, cb]
+        run.check([a, b, c, d] == ref, 'C17.matrix', fi.qual, 'reference', 'M_%s equals the reference characteristic matrix (off-diagonals -i sin(beta) x admittance)' % pol,
+                  'M_%s = %s differs from the reference [[cos b, -i sin b %s], [-i n sin b %s, cos b]]' % (pol, show(dom, m), 'cos/n' if pol == 'p' else '/(n cos)', '/cos' if pol == 'p' else 'cos'), fi.loc())
 
     # rtot / ttot
     fr, ft = db.func(M + 'rtot'), db.func(M + 'ttot')
@@ -163,6 +175,14 @@ def check(run, db, tier):
     got = dom.rat(ps[0].value)
     run.check(got is not None and got == R.func('arcsin', [Rat(a0, a1)]), 'C17.snell', fi.qual, 'critical',
               'critical_angle == arcsin(n0/n1)', 'critical_angle = %s' % show(dom, ps[0].value), fi.loc())
+    # history independence: no routine writes through its arguments (batched == loop, repeated calls agree)
+    for nm in ('multilayer_stack_rt', 'multilayer_matrix_p', 'multilayer_matrix_s', 'characteristic_matrix_p', 'characteristic_matrix_s', 'rtot', 'ttot', 'snell_aor'):
+        fi = db.func(M + nm)
+        muts = input_mutations(fi)
+        for st, name in muts:
+            run.finding('C17.pure', fi.qual, norm_stmt(st), 'in-place write through `%s`, which may alias the caller\'s array: a second call (other polarisation, per-element loop over the same stack) sees modified data' % name, fi.loc(st))
+        if not muts:
+            run.ok('C17.pure', fi.qual, 'no in-place write through an argument or a view of one')
     run.require_instances('C17.energy', 2)
     run.require_instances('C17.interface', 4)
     run.require_instances('C17.matrix', 6)
